@@ -19,13 +19,15 @@ LEVEL_TEXT = ("Bounded contract checking by single-fault mutation: every valid g
               "valid run and opened with cleanup=False must be byte-for-byte unchanged afterwards. The validators "
               "walk networkx graphs and numpy shapes and are decided on the bounded rung (the MapSpec.shape "
               "rank/zip checks are covered under C08). Proved part (pyvc): validate_unique_output_names (raises "
-              "exactly when the new output name is already taken). Category 'other' = that leaf contract + bounded "
-              "fault-class checking; it is not a proof of C12.")
+              "exactly when the new output name is already taken) and _validate_shapes (raises exactly for a surplus "
+              "array, a missing array, a rank mismatch or an internal shape for a non-output). Category 'other' = "
+              "those contracts + bounded fault-class checking; it is not a proof of C12.")
 LEVEL_NOTE = ("Fault classes: duplicate output, output named like own parameter, cycle, inconsistent defaults, "
               "MapSpec/signature mismatch, inconsistent axes between MapSpecs, missing input, surplus input, wrong "
               "rank, zipped dimension mismatch, unknown storage, executor with parallel=False. Trusted: the generators' "
               "notion of a valid case (checked by C01/C02).")
-TECHNIQUE = "bounded single-fault mutation contract checking; leaf validate_unique_output_names discharged by z3"
+TECHNIQUE = ("bounded single-fault mutation contract checking; validate_unique_output_names and _validate_shapes "
+             "discharged by z3")
 EXPLANATION = LEVEL_TEXT
 RULE = ("valid case x fault class; distinct = distinct (case, fault); non-trivial = every case (each is a faulty request "
         "that must be rejected)")
@@ -34,8 +36,9 @@ ASSUMPTIONS = []
 
 
 def registry():
-    from contracts import misc
-    return {**{c.short: c for c in misc.ALL}, **{c.name: c for c in misc.ALL}}
+    from contracts import mapspec, misc
+    allc = misc.ALL + mapspec.ALL
+    return {**{c.short: c for c in allc}, **{c.name: c for c in allc}}
 
 
 def _vuo_gen(rng, tier):
@@ -49,7 +52,11 @@ def _vuo_gen(rng, tier):
 def proof_items():
     from contracts import misc
     from vf.driver import ProofItem
-    return [ProofItem(misc.validate_unique_output_names, gen=_vuo_gen)]
+    from contracts import mapspec
+    from props.C08 import _vshape_gen
+    return [ProofItem(misc.validate_unique_output_names, gen=_vuo_gen),
+            # the map-level rejections of surplus / missing arrays and wrong ranks come from here
+            ProofItem(mapspec.validate_shapes, gen=_vshape_gen)]
 
 
 # ---- construction-level faults on call-level DAGs --------------------------------------------------------------
